@@ -136,6 +136,17 @@ func (m *usernameToUserdataMap) RemoveSession(username string) bool {
 	return false
 }
 
+// RemoveUser drops the userdata entry and the session counter of username
+// whatever the number of logins: used when the user record has changed, so that
+// every login made with the old record has to be repeated.
+func (m *usernameToUserdataMap) RemoveUser(username string) {
+	shard := m.shardFor(username)
+	shard.mu.Lock()
+	delete(shard.sessionCounts, username)
+	delete(shard.Userdata, username)
+	shard.mu.Unlock()
+}
+
 // defaultDbIndex systemdb should always be in index 0
 const (
 	defaultDbIndex = 0
